@@ -174,14 +174,16 @@ CLAIMED = {
         'before any driver call. listen()/exchange(): the captured target is exactly what the call returned and the '
         'exchange direction follows its kind. One activation (_rdwr_connect, _card_connect) with a ghost event log: '
         'callbacks in the order discover, connect, release; on-release exactly once iff on-connect returned true; the '
-        'documented return values, with the device reference possibly gone at every lock acquisition (frontend closed '
+        'documented return values (likewise _llcp_connect: on-connect once for the first successful activation, link loop '
+        'only after a true on-connect, on-release once after it), with the device reference possibly gone at every lock '
+        'acquisition (frontend closed '
         'from a callback or another thread). connect(): TypeError iff an option is not a dict; None when no option survives '
         'on-startup. A DEP target with a documented-valid ATR_REQ (16..64 octets) is handed to the driver; llc.activate() '
         'is true exactly when THIS activation installed its MAC, whatever an earlier attempt on the same link '
         'controller left behind.',
    design_ref='DESIGN.md Part A sections A.4 (this property), A.8',
    note='Driver, tag activation/emulation are environment models/assumed contracts; callbacks return documented types; '
-        'the activation loop over several iterations, _llcp_connect ordering and "ends promptly" (time) are not covered; '
+        'the activation loop over several iterations and "ends promptly" (time) are not covered; '
         'driver I/O faults are C13.',
    technique='contract-based deductive verification: ghost event log + postconditions (pyvc)'),
  'C20': dict(
